@@ -1475,36 +1475,130 @@ def make_input_fields(sch, fields_spec):
     return out
 
 
+def make_fields(sch, fields_spec):
+    """Field objects (with arguments) for a composite type of [sch], types resolved in sch's own type map"""
+    def ref(t):
+        if t[0] == "N":
+            return sch.types[t[1]]
+        return (S.ListType if t[0] == "L" else S.NonNullType)(ref(t[1]))
+    out = []
+    for f in fields_spec:
+        args = []
+        for a in f.get("args", []):
+            kw = {}
+            if a.get("default") is not None:
+                kw["default_value"] = copy.deepcopy(a["default"]["py"])
+            args.append(S.Argument(a["name"], ref(a["type"]), **kw))
+        out.append(S.Field(f["name"], ref(f["type"]), args=args, deprecation_reason=f.get("depr")))
+    return out
+
+
+DERIVE_MODES = ("in_place", "clone_setter", "transform", "camel_case", "extend")
+
+
+def _apply_spec_difference(target, old_spec, new_spec):
+    """rewrite, through public setters / attributes of the type objects of [target], every type
+    whose definition differs between the two specs (same type names and kinds)"""
+    newdefs = {t["name"]: t for t in new_spec["types"]}
+    assert [t["name"] for t in old_spec["types"]] == [t["name"] for t in new_spec["types"]] or \
+        sorted(t["name"] for t in old_spec["types"]) == sorted(newdefs), "types added / removed"
+    for ot in old_spec["types"]:
+        nt = newdefs[ot["name"]]
+        if nt == ot:
+            continue
+        assert nt["kind"] == ot["kind"]
+        obj = target.types[nt["name"]]
+        k = nt["kind"]
+        if k == "input":
+            obj.fields = make_input_fields(target, nt["fields"])
+        elif k in ("object", "interface"):
+            if nt["fields"] != ot["fields"]:
+                obj.fields = make_fields(target, nt["fields"])
+            if k == "object" and nt["interfaces"] != ot["interfaces"]:
+                obj.interfaces = [target.types[i] for i in nt["interfaces"]]
+        elif k == "union":
+            obj.types = [target.types[m] for m in nt["members"]]
+        elif k == "enum":
+            assert [v["name"] for v in nt["values"]] == [v["name"] for v in ot["values"]], "enum values added / removed"
+            for v, ev in zip(nt["values"], obj.values):
+                ev.deprecation_reason = v.get("depr")
+                ev.deprecated = v.get("depr") is not None
+        else:
+            raise AssertionError("cannot derive " + k)
+    if old_spec.get("directives") != new_spec.get("directives"):
+        raise AssertionError("directives differ")
+
+
 def derive_schema(old_spec, new_spec, mode):
     """(old schema, new schema) where the new one is DERIVED from a schema object that has
-    already been diffed once (so every lazily computed map of its types has been read):
-      in_place      the warmed-up object itself, its input types' `fields` reassigned;
-      clone_setter  `clone()` of the warmed-up object, `fields` reassigned on the clone;
-      transform     transform_schema(warmed-up object, VisibilitySchemaTransform hiding the removed input fields)
-    only the input object types may differ between the two specs"""
+    already been diffed once (every lazily computed map of its types has been read); the source
+    is built as old_spec["via"] says (SDL-built types carry their definition `nodes`):
+      in_place      the warmed-up object itself, its types rewritten through their public setters
+                    (old = an independent build of the same spec);
+      clone_setter  `clone()` of the warmed-up object, rewritten through the setters;
+      transform     transform_schema(object, VisibilitySchemaTransform hiding the removed fields / input fields);
+      camel_case    transform_schema(object, CamelCaseSchemaTransform())  (new_spec is ignored);
+      extend        extend_schema(object, SDL extensions adding the new fields / input fields / enum values)"""
     from py_gql.schema.differ import diff_schema
-    from py_gql.schema.transforms import VisibilitySchemaTransform, transform_schema
+    from py_gql.schema.transforms import CamelCaseSchemaTransform, VisibilitySchemaTransform, transform_schema
+    from py_gql.sdl import extend_schema
     src = build(old_spec)
     ref = build(old_spec)
     list(diff_schema(src, ref))          # warm-up: reads field_map & co. of every type of both
-    changed = []
     newdefs = {t["name"]: t for t in new_spec["types"]}
-    for t in old_spec["types"]:
-        if t["kind"] == "input" and newdefs.get(t["name"]) != t:
-            changed.append((t, newdefs[t["name"]]))
+    if mode == "camel_case":
+        return src, transform_schema(src, CamelCaseSchemaTransform())
     if mode == "transform":
-        hidden = set()
-        for ot, nt in changed:
+        hidden_in, hidden_f = set(), set()
+        for ot in old_spec["types"]:
+            nt = newdefs[ot["name"]]
+            if nt == ot:
+                continue
+            assert ot["kind"] in ("input", "object", "interface"), "transform can only hide fields"
             kept = [f["name"] for f in nt["fields"]]
             assert [f for f in ot["fields"] if f["name"] in kept] == nt["fields"], "transform can only hide fields"
-            hidden |= {(ot["name"], f["name"]) for f in ot["fields"] if f["name"] not in kept}
+            gone = {(ot["name"], f["name"]) for f in ot["fields"] if f["name"] not in kept}
+            if ot["kind"] == "input":
+                hidden_in |= gone
+            else:
+                assert nt.get("interfaces") == ot.get("interfaces")
+                hidden_f |= gone
 
         class Hide(VisibilitySchemaTransform):
             def is_input_field_visible(self, typename, fieldname):
-                return (typename, fieldname) not in hidden
+                return (typename, fieldname) not in hidden_in
+
+            def is_field_visible(self, typename, fieldname):
+                return (typename, fieldname) not in hidden_f
 
         return src, transform_schema(src, Hide())
+    if mode == "extend":
+        ext = []
+        for ot in old_spec["types"]:
+            nt = newdefs[ot["name"]]
+            if nt == ot:
+                continue
+            k = ot["kind"]
+            if k in ("object", "interface", "input"):
+                assert nt["fields"][:len(ot["fields"])] == ot["fields"] and nt.get("interfaces") == ot.get("interfaces")
+                added = nt["fields"][len(ot["fields"]):]
+                assert added
+                if k == "input":
+                    body = "\n".join("  %s: %s%s" % (f["name"], tstr(f["type"]),
+                                                     (" = " + f["default"]["gql"]) if f.get("default") is not None else "")
+                                     for f in added)
+                else:
+                    body = "\n".join("  %s%s: %s%s" % (f["name"], _sdl_args(f.get("args", [])), tstr(f["type"]),
+                                                       _sdl_depr(f.get("depr"))) for f in added)
+                ext.append("extend %s %s {\n%s\n}" % ({"object": "type", "interface": "interface", "input": "input"}[k],
+                                                     ot["name"], body))
+            elif k == "enum":
+                assert nt["values"][:len(ot["values"])] == ot["values"]
+                ext.append("extend enum %s {\n%s\n}" % (ot["name"], "\n".join(
+                    "  %s%s" % (v["name"], _sdl_depr(v.get("depr"))) for v in nt["values"][len(ot["values"]):])))
+            else:
+                raise AssertionError("cannot extend " + k)
+        return src, extend_schema(src, "\n".join(ext))
     target = src if mode == "in_place" else src.clone()
-    for ot, nt in changed:
-        target.types[nt["name"]].fields = make_input_fields(target, nt["fields"])
+    _apply_spec_difference(target, old_spec, new_spec)
     return (ref if mode == "in_place" else src), target
